@@ -277,6 +277,13 @@ func effectiveSpec(h HarnessSpec, tier string) (*sym.Spec, error) {
 		}
 	}
 	sp.Entry = h.Entry
+	if sp.MaxSeconds == 0 {
+		if tier == "quick" {
+			sp.MaxSeconds = 900
+		} else {
+			sp.MaxSeconds = 7200
+		}
+	}
 	sp.Params = map[string]int{}
 	for k, v := range h.Params[tier] {
 		sp.Params[k] = v
